@@ -44,12 +44,12 @@ def run_C19(ctx, args):
     rng = random.Random(ctx.seed)
     d = ctx.specdir("Rounds")
     # ---- E3: every sequence of <= 5 candidates over the grid (exhaustive)
-    ctx.tlc_mc(d, "MC_Rounds19.tla", "MC_Rounds19_quick.cfg" if quick else "MC_Rounds19.cfg", workers=8, timeout=1500)
+    ctx.tlc_mc(d, "MC_Rounds19.tla", "MC_Rounds19_quick.cfg" if quick else "MC_Rounds19.cfg", workers=8, timeout=3000)
     for w in ("ReachFive", "ReachSpan", "ReachMovedStart"):
         ctx.tlc_mc(d, "MC_Rounds19.tla", "MC_Rounds19_%s.cfg" % w, workers=4, timeout=600, expect_violation=w, count=False)
     ctx.exhaustive = True
     # ---- E1: every edge of the emission family -> walks on a real CacheRound
-    edges = ctx.tlc_edges(d, "MC_Rounds19.tla", "Gen_Rounds19.cfg" if quick else "Gen_Rounds19_thorough.cfg", timeout=1500)
+    edges = ctx.tlc_edges(d, "MC_Rounds19.tla", "Gen_Rounds19.cfg" if quick else "Gen_Rounds19_thorough.cfg", timeout=3000)
     ws = build_walks(edges, init=[], rng=rng, n_random=(300 if quick else 3000), depth=9, maxlen=40)
     walks = []
     for w in ws:
@@ -93,4 +93,120 @@ def run_C19(ctx, args):
         "timestamps < 2^63 (no uint64 wrap of timestamp + gap); timestamps of the form Base + u*0.5s + e ns, e in {-1,0,1}",
         "the Hash field of a candidate is assigned by the harness independently of its content (the round logic only reads the field)",
         "a candidate's own transaction list has no repeats (checked elsewhere in the kernel)",
+    ]
+
+
+# ------------------------------------------------------------------------------------- C20
+C20_1_TEXT = ("C20-1 finalized-path round transition accepts a chain identifier as external reference: ReadRound resolves it to that "
+              "chain's HEAD round record (not a final round) and the link is set to the head number "
+              "(kernel/graph.go validateNewRound / updateEmptyHeadRoundAndPersist, non-strict path)")
+
+
+def run_C20(ctx, args):
+    quick = ctx.tier == "quick"
+    rng = random.Random(ctx.seed)
+    d = ctx.specdir("Rounds")
+    known = {k["id"] for k in ctx.known()}
+    k = "k1" if "C20-1" in known else "k0"
+    # ---- E3
+    base = "MC_Rounds20" if quick else "MC_Rounds20_thorough"
+    ctx.tlc_mc(d, "MC_Rounds20.tla", base + (".cfg" if k == "k1" else "_noalias.cfg"), workers=8, timeout=2400)
+    for w in ("ReachBackLink", "ReachDummy"):
+        ctx.tlc_mc(d, "MC_Rounds20.tla", "MC_Rounds20_%s.cfg" % w, workers=4, timeout=900, expect_violation=w, count=False)
+    ctx.exhaustive = True
+    # ---- E1: every edge of the emission family on a real node
+    edges = ctx.tlc_edges(d, "MC_Rounds20.tla", "Gen_Rounds20.cfg" if quick else "Gen_Rounds20_thorough.cfg", timeout=2400)
+    n_all = len(edges)
+    if quick:
+        # quick tier: every state-changing edge, and a seeded quarter of the refused (self-loop) edges;
+        # the thorough tier replays every edge
+        edges = [e for e in edges if e["from"] != e["to"] or rng.random() < 0.25]
+    ws = build_walks(edges, rng=rng, n_random=(30 if quick else 400), depth=14, maxlen=120)
+    if quick and len(ws) > 260:
+        # keep the walks that add a new kind of step (operation, self, reference kind/relation, mode, outcome), then a seeded fill
+        def sig(e):
+            o, f = e["o"], e["from"]
+            x = o["ext"]
+            rel = "-"
+            if x["k"] == "F":
+                head = f["num"][x["c"] - 1] if x["c"] - 1 < len(f["num"]) else 0
+                rel = ("own" if x["c"] == o["c"] else "other") + ("<" if x["n"] + 1 < head else "=" if x["n"] + 1 == head else ">")
+            return (o["op"], o["self"], x["k"], rel, o["early"], o["fin"], o["strict"], e["ok"], f["has"][o["c"] - 1])
+        order = list(range(len(ws)))
+        rng.shuffle(order)
+        seen, keep, rest = set(), [], []
+        for i in order:
+            sg = {sig(e) for e in ws[i]}
+            if sg - seen:
+                seen |= sg
+                keep.append(i)
+            else:
+                rest.append(i)
+        keep += rest[:max(0, 260 - len(keep))]
+        ws = [ws[i] for i in sorted(keep)]
+    walks = [[e["o"] for e in w] for w in ws]
+    ctx.cov["edges_in_model"] = n_all
+    ctx.cov["edges_replayed"] = len({json.dumps([e["from"], e["o"]], sort_keys=True) for w in ws for e in w})
+    ctx.log("walks: %d covering %d of %d edges" % (len(walks), ctx.cov["edges_replayed"], n_all))
+    cases = os.path.join(ctx.scratch, "cases20.json")
+    with open(cases, "w") as fh:
+        json.dump({"walks": walks}, fh)
+    trace = os.path.join(ctx.scratch, "trace20.ndjson")
+    ctx.go_harness("kernel", "^TestVerifRounds20$", env={"VERIF_CASES": cases, "VERIF_TRACE": trace}, timeout=2400)
+    events = read_ndjson(trace)
+    traces = split_traces(events)
+    ctx.log("harness done: %d lines" % len(events))
+    ops = [e for e in events if e["ev"] == "Op"]
+    ctx.evaluations = len(ops)
+    ctx.distinct = len({json.dumps([e["o"] for e in t[1] if e["ev"] == "Op"], sort_keys=True) for t in traces
+                        if any(e["ev"] == "Op" and e["o"]["op"] != "Add" and e["res"] == "ok" for e in t[1])})
+    ctx.cov["accepted_transitions"] = sum(1 for e in ops if e["o"]["op"] != "Add" and e["res"] == "ok")
+    ctx.cov["rejected_transitions"] = sum(1 for e in ops if e["o"]["op"] != "Add" and e["res"] != "ok")
+    ctx.cov["dummy_starts"] = sum(1 for e in ops if e.get("dummy"))
+    ctx.rule = (("a seeded selection (every kind of step, at most 260 walks) of the edges" if quick else "every edge") +
+                " of the exhaustive TLC state graph of MC_Rounds20 (emission family) replayed on a real kernel.Node over a "
+                "real BadgerStore with a generated 7-chain genesis (Chain.AddSnapshot, startNewRoundAndPersist, "
+                "updateEmptyHeadRoundAndPersist; read back through ReadRound/ReadLink and ChainState), plus seeded random walks; "
+                "distinct = distinct operation sequences with at least one accepted transition")
+    ctx.samples = [[[e["o"]["op"], e["o"]["c"], e["o"]["ext"], e["res"]] for e in t[1] if e["ev"] == "Op"][:8] for t in traces[:2] + traces[-2:]]
+    r = ctx.tlc_trace(d, "Trace_Rounds20.tla", "Trace_Rounds20_full_%s.cfg" % k, trace, timeout=2400)
+    out = r["out"]
+    if r["accepted"]:
+        ctx.traces = len(traces)
+        ctx.log("E2 full conformance: %d traces / %d lines accepted" % (len(traces), len(events)))
+    else:
+        ctx.log("E2 full conformance rejected at line %s (invariant %s); running the property monitor" % (r["line"], r["invariant"]))
+        ctx.mismatches.append({"line": r["line"], "invariant": r["invariant"],
+                               "event": {kk: vv for kk, vv in events[r["line"] - 1].items() if kk != "obs"}
+                               if r["line"] and r["line"] <= len(events) else None})
+        r2 = ctx.tlc_trace(d, "Trace_Rounds20.tla", "Trace_Rounds20_monitor_%s.cfg" % k, trace, timeout=2400)
+        out = r2["out"]
+        if r2["accepted"]:
+            ctx.traces = len(traces)
+            ctx.notes.append("conformance mismatch not forbidden by this property (see conformance_mismatches)")
+        else:
+            line = r2["line"] or 1
+            bad = traces[-1]
+            for first, evs in traces:
+                if first <= line < first + len(evs) + 1:
+                    bad = (first, evs)
+            ctx.traces = sum(1 for first, evs in traces if first + len(evs) <= line)
+            idx = line - bad[0]
+            ev = events[line - 1] if line <= len(events) else None
+            ctx.violation("round transition of the real chain breaks C20 (accepted: number+1, self = hash of the closed round, external = "
+                          "known final round of another chain, links never decrease; rejected: chain state unchanged) - monitor %s, "
+                          "line %d, operation %s -> %s"
+                          % (r2["invariant"] or "no enabled action explains the event", line,
+                             json.dumps(ev["o"]) if ev and "o" in ev else "?", ev.get("res") if ev else "?"),
+                          {"ops": [e["o"] for e in bad[1][:idx + 1] if e["ev"] == "Op"], "failing_index": idx,
+                           "state_before": bad[1][idx - 1]["obs"] if idx >= 1 else None, "failing_event": ev,
+                           "invariant": r2["invariant"]})
+    if k == "k1" and ("KNOWN-REACHED" in out or any(e["ev"] == "Op" and e["res"] == "ok" and e["o"]["op"] != "Add"
+                                                    and e["obs"]["ext"][e["o"]["c"] - 1]["k"] == "H" for e in events)):
+        ctx.known_reached.append(C20_1_TEXT)
+    ctx.assumptions += [
+        "all round starts lie within minutes of each other: the 'external reference too early against the best round' rule (more than "
+        "5 h behind) is exercised only through head records (start 0); node set = 7 genesis nodes, no membership change",
+        "snapshots are put into head rounds through the real Chain.AddSnapshot with an unverified certificate mask (finalization "
+        "checks belong to C09); one snapshot per round",
     ]
